@@ -315,7 +315,8 @@ struct ScriptedRunner : public CommandRunner {
     // just its command line changes), every other command's output depends on its command line too
     string acc = r.edge->GetBindingBool("generator") ? string("generator") : r.edge->EvaluateCommand(true);
     acc.push_back('\0'); acc += out; acc.push_back('\0');
-    for (auto& p : r.reads) { acc += p; acc.push_back('\0'); acc += r.snapshot.at(p); acc.push_back('\0'); }
+    // contents only (not names): two headers with identical text are interchangeable for the output
+    for (auto& p : r.reads) { acc += r.snapshot.at(p); acc.push_back('\0'); }
     return "H:" + u64hex(fnv(acc));
   }
   BuildResult WaitForCommand() override {
